@@ -52,6 +52,10 @@ func runC11(e *Engine, g G, o RunOpt) RunInfo {
 	n := g.Range("nconns", 2, 5)
 	for i := 0; i < n; i++ {
 		c := c11Conn{Via: "Connect", SMId: fmt.Sprintf("sm-%d", i+1)}
+		if g.Pct("id-needs-escaping", 20) {
+			// the id is opaque text chosen by the server: any attribute-legal characters
+			c.SMId = fmt.Sprintf("node=a&seq=%d'x<y>\"z é", i+1)
+		}
 		if i > 0 {
 			c.Via = []string{"Resume", "Connect"}[g.Weighted("via", 3, 1)]
 		}
